@@ -87,3 +87,103 @@ Proof. intros sc ow. unfold can_apply. destruct ow, (o_policy (sc_opts sc)); ref
 Lemma src_can_prune_agrees : forall sc ow,
   eval_fn src_can_prune (status_name ow) (o_policy (sc_opts sc)) = Some (can_prune sc ow, can_prune sc ow).
 Proof. intros sc ow. unfold can_prune. destruct ow, (o_policy (sc_opts sc)); reflexivity. Qed.
+
+(* ---- the two filters that consult the policy (pkg/apply/filter) ------------------------------------
+   Their Filter methods are flattened by the translator into guarded items (guards, (is return, text)); an item
+   runs when all its guards hold.  The interpreter below knows exactly the conditions, assignments and return
+   expressions that the pinned source uses and is STUCK (None) on any other text, so a new branch in the source
+   (for instance another error class treated like NotFound) breaks the agreement lemma instead of being ignored.
+   Environment: the policy, what the GET of the live object answers, and the current value of `err`. *)
+Inductive errst := ENil | ENotFound | EOtherErr | EPolicyErr.
+Definition item := (list string * (bool * string))%type.
+Definition eval_cond (pol : policy) (e : errst) (c : string) : option bool :=
+  if c =? "ipaf.InvPolicy == inventory.PolicyAdoptAll" then Some (policy_eqb pol PAdoptAll)
+  else if c =? "err != nil" then Some (match e with ENil => false | _ => true end)
+  else if c =? "apierrors.IsNotFound(err)" then Some (match e with ENotFound => true | _ => false end)
+  else None.
+Fixpoint eval_guards (pol : policy) (e : errst) (gs : list string) : option bool :=
+  match gs with
+  | [] => Some true
+  | g :: t => match eval_cond pol e g, eval_guards pol e t with
+              | Some a, Some b => Some (a && b)
+              | _, _ => None
+              end
+  end.
+(* a returned error: nil passes; the error of CanApply/CanPrune is a PolicyPreventedActuationError (the object is
+   skipped); NewFatalError(...) ends the run.  Returning any other error value is not something the source does. *)
+Definition eval_ret (e : errst) (t : string) : option fres :=
+  if t =? "nil" then Some FPass
+  else if t =? "NewFatalError" then Some FFatal
+  else if t =? "err" then match e with EPolicyErr => Some FSkip | _ => None end
+  else None.
+(* g = the answer of the GET (None: the caller has not said; the interpreter then reports that it needs it) *)
+Inductive fout := FDone (r : fres) | FNeedGet | FStuck.
+Fixpoint exec_filter (pol : policy) (g : option getres) (ow : option owner) (e : errst) (l : list item) : fout :=
+  match l with
+  | [] => FStuck                                     (* a Go function with a result cannot fall off its end *)
+  | (gs, (isret, t)) :: rest =>
+      match eval_guards pol e gs with
+      | None => FStuck
+      | Some false => exec_filter pol g ow e rest
+      | Some true =>
+          if isret then match eval_ret e t with Some r => FDone r | None => FStuck end
+          else if t =? "clusterObj, err := ipaf.getObject(object.UnstructuredToObjMetadata(obj))" then
+            match g with
+            | None => FNeedGet
+            | Some GFault => exec_filter pol g None EOtherErr rest
+            | Some GNotFound => exec_filter pol g None ENotFound rest
+            | Some (GFound c) => exec_filter pol g (Some (c_owner c)) ENil rest
+            end
+          else if t =? "_, err = inventory.CanApply(ipaf.Inv, clusterObj, ipaf.InvPolicy)" then
+            match ow with
+            | Some o => match eval_fn src_can_apply (status_name o) pol with
+                        | Some (_, errnil) => exec_filter pol g ow (if errnil then ENil else EPolicyErr) rest
+                        | None => FStuck
+                        end
+            | None => FStuck
+            end
+          else if t =? "_, err := inventory.CanPrune(ipf.Inv, obj, ipf.InvPolicy)" then
+            match ow with
+            | Some o => match eval_fn src_can_prune (status_name o) pol with
+                        | Some (_, errnil) => exec_filter pol g ow (if errnil then ENil else EPolicyErr) rest
+                        | None => FStuck
+                        end
+            | None => FStuck
+            end
+          else FStuck
+      end
+  end.
+
+(* InventoryPolicyApplyFilter.Filter = policy_apply_filter of the model: no GET under AdoptAll; otherwise one GET
+   whose answer decides: a failed read is fatal WHATEVER the error, NotFound passes, a found object is judged by
+   CanApply on its owner (through the translated CanApply, src_can_apply) *)
+Lemma src_policy_apply_filter_agrees : forall sc s i,
+  policy_apply_filter sc s i =
+    match exec_filter (o_policy (sc_opts sc)) None None ENil src_policy_apply_filter with
+    | FDone r => (s, r)
+    | _ => let '(s1, g) := get_obj sc s i in
+           (s1, match exec_filter (o_policy (sc_opts sc)) (Some g) None ENil src_policy_apply_filter with
+                | FDone r => r
+                | _ => FFatal
+                end)
+    end.
+Proof.
+  intros sc s i. unfold policy_apply_filter.
+  destruct (o_policy (sc_opts sc)) eqn:P; cbn; try reflexivity;
+    destruct (get_obj sc s i) as [s1 g]; destruct g as [| |c]; cbn; try reflexivity;
+    unfold can_apply; rewrite P; destruct (c_owner c); reflexivity.
+Qed.
+(* and the interpreter is never stuck on the pinned source: every branch ends in a decision *)
+Lemma src_policy_apply_filter_total : forall pol g,
+  exists r, exec_filter pol (Some g) None ENil src_policy_apply_filter = FDone r.
+Proof.
+  intros pol g. destruct pol, g as [| |c]; cbn; try (eexists; reflexivity);
+    destruct (c_owner c); cbn; eexists; reflexivity.
+Qed.
+(* InventoryPolicyPruneFilter.Filter on the object read at plan time = the second test of prune_filters *)
+Lemma src_policy_prune_filter_agrees : forall sc (c : cobj),
+  exec_filter (o_policy (sc_opts sc)) None (Some (c_owner c)) ENil src_policy_prune_filter
+    = FDone (if can_prune sc (c_owner c) then FPass else FSkip).
+Proof.
+  intros sc c. unfold can_prune. destruct (o_policy (sc_opts sc)), (c_owner c); reflexivity.
+Qed.
